@@ -272,8 +272,11 @@ def main():
 
     harness = [r for r in all_results if "harness_error" in r]
     if harness:
-        sys.stderr.write("HARNESS ERROR (seed=%s run=%s profile=%s):\n%s\n" % (harness[0]["seed"], harness[0]["run"], harness[0]["profile"], harness[0]["harness_error"]))
-        return 2
+        # runs the harness itself could not judge are never a verdict; they only stop the check when nothing else was found
+        results = [r for r in results if "harness_error" not in r]
+        clean_results = [r for r in clean_results if "harness_error" not in r]
+        sweep_results = [r for r in sweep_results if "harness_error" not in r]
+        all_results = results + clean_results + sweep_results
 
     known_hits, new_hits = {}, []
     for r in all_results:
@@ -283,6 +286,11 @@ def main():
                 new_hits.append((r, v))
             else:
                 known_hits.setdefault(f["id"], [f, 0])[1] += 1
+    if harness:
+        sys.stderr.write("HARNESS ERROR in %d run(s), first (seed=%s run=%s profile=%s):\n%s\n" % (
+            len(harness), harness[0]["seed"], harness[0]["run"], harness[0]["profile"], harness[0]["harness_error"]))
+        if not new_hits:
+            return 2
 
     # determinism self-test sample: same seeds in a fresh interpreter under another hash seed
     det_n = tier["det"]
